@@ -568,3 +568,79 @@ def gen_prem(strings, rng, unmap):
             a, b = r.split(">>")
             cases.append(dict(kind="str-prem", rsmi=unmap(a, rng) + ">>" + b))
     return cases
+
+
+# ------------------------------------------------------------------ "same unmapped reactants and products" (proof/C01_Unmapped.v)
+# case = {"kind": "str-unm", "rsmi": r}.  model: [unmapped_eqb (reading of r') (reading of r), same for the products] where r' >> p' is what
+# its_to_rsmi(rsmi_to_its(r)) wrote - the hypothesis of contract CU, sound for unmapped_eq (theorem C01_unmapped_test_sound).
+# implementation side: [the same test in Python on the independent readings, and - when it holds - whether RDKit gives both sides the same
+# unmapped form (maps removed, RemoveHs, canonical SMILES of the fragments)], per side: the instance of CU on this case.
+
+def _fold_all_py(X):
+    """independent reading (nodes {map: (sym, charge, total H, aromatic)}, edges {frozenset: order}) with every hydrogen that has a
+    non-hydrogen neighbour folded into each such neighbour's H count (as implicit_hydrogen with an empty preserve set)"""
+    nodes, edges = dict(X[0]), dict(X[1])
+    nb = {}
+    for e in edges:
+        u, v = tuple(e)
+        nb.setdefault(u, set()).add(v)
+        nb.setdefault(v, set()).add(u)
+    gone = {h for h, l in nodes.items() if l[0] == "H" and any(nodes[m][0] != "H" for m in nb.get(h, ()))}
+    out = {}
+    for n, (sym, ch, th, ar) in nodes.items():
+        if n in gone:
+            continue
+        if sym != "H":
+            th += sum(1 for m in nb.get(n, ()) if nodes[m][0] == "H")
+        out[n] = (sym, ch, th, ar)
+    return out, {e: o for e, o in edges.items() if not (set(e) & gone)}
+
+
+def _unm_run(case):
+    import synkit.IO.chem_converter as cc
+    r = case["rsmi"]
+    if r.count(">>") != 1 or r.count(">") != 2:
+        return None
+    try:
+        back = cc.its_to_rsmi(cc.rsmi_to_its(r))
+    except Exception:
+        return None
+    if not isinstance(back, str) or back.count(">>") != 1 or back.count(">") != 2:
+        return None
+    return r.split(">>"), back.split(">>")
+
+
+def obs_unm(case, unmapped_side):
+    from . import c01_rsmi as R
+    rr = _unm_run(case)
+    if rr is None:
+        return ["no-output"]
+    out = []
+    for s, s2 in zip(*rr):
+        A, A2 = R.read_side(s), R.read_side(s2)
+        if A is None or A2 is None or A[3] or A2[3]:
+            return ["unreadable-or-duplicate-maps"]
+        prem = _fold_all_py(A2) == _fold_all_py(A)
+        out += [prem and unmapped_side(s2) == unmapped_side(s)]
+    return out
+
+
+def coq_unm(case):
+    from . import c01_rsmi as R
+    rr = _unm_run(case)
+    if rr is None:
+        return None
+    ms = []
+    for s, s2 in zip(*rr):
+        A, A2 = R.read_side(s), R.read_side(s2)
+        if A is None or A2 is None or A[3] or A2[3]:
+            return None
+        m, m2 = T.sanitized_mol(s), T.sanitized_mol(s2)
+        if m is None or m2 is None:
+            return None
+        ms += [T.coq_rmol(T.read_rmol(m)), T.coq_rmol(T.read_rmol(m2))]
+    return "run_unm %s %s %s %s" % tuple(ms)
+
+
+def gen_unm(strings):
+    return [dict(kind="str-unm", rsmi=r) for r in strings]
